@@ -66,7 +66,10 @@ func TestMain(m *testing.M) {
 func gen(rt *rapid.T) any {
 	r := &Record{}
 	r.Prog = gencommon.Program(rt, gencommon.ProgramSpec{CorpusShare: 2, Lib: 6, MaxXGo: 4, Budget: 50, MaxDepth: 3, MaxDecls: 8}, env.Paths)
-	r.Front = gencommon.Front(rt, gencommon.FrontSpec{Faults: []string{"discard_ref", "abort_stmt", "abort_init", "discard_reset"}, MaxFaults: 3, FileAssign: true, HandlerFlip: true})
+	if r.Prog.Corpus == "" {
+		r.Prog.ForceImports = gencommon.ForceImports(rt)
+	}
+	r.Front = gencommon.Front(rt, gencommon.FrontSpec{Faults: []string{"discard_ref", "abort_stmt", "abort_init", "discard_reset", "bigint_op", "inline_closure"}, MaxFaults: 3, FileAssign: true, HandlerFlip: true})
 	r.Envs = []EnvSpec{
 		{Native: true},
 		{MapDflt: 0, PoolDflt: -1},
